@@ -33,8 +33,10 @@ type store[V any] interface {
 	Expiration(uint64) time.Time
 	// Set adds the key-value pair to the Map or updates the value if it's
 	// already present. The key-value pair is passed as a pointer to an
-	// item object.
-	Set(*Item[V])
+	// item object. It returns false if the item was not stored (nil item,
+	// conflicting key under the same hash, or ShouldUpdate refused), in
+	// which case the caller still owns the value.
+	Set(*Item[V]) bool
 	// Del deletes the key-value pair from the Map.
 	Del(uint64, uint64) (uint64, V)
 	// Update attempts to update the key with a new value and returns true if
@@ -114,13 +116,13 @@ func (sm *shardedMap[V]) Expiration(key uint64) time.Time {
 	return sm.shards[key%numShards].Expiration(key)
 }
 
-func (sm *shardedMap[V]) Set(i *Item[V]) {
+func (sm *shardedMap[V]) Set(i *Item[V]) bool {
 	if i == nil {
 		// If item is nil make this Set a no-op.
-		return
+		return false
 	}
 
-	sm.shards[i.Key%numShards].Set(i)
+	return sm.shards[i.Key%numShards].Set(i)
 }
 
 func (sm *shardedMap[V]) Del(key, conflict uint64) (uint64, V) {
@@ -187,10 +189,10 @@ func (m *lockedMap[V]) Expiration(key uint64) time.Time {
 	return m.data[key].expiration
 }
 
-func (m *lockedMap[V]) Set(i *Item[V]) {
+func (m *lockedMap[V]) Set(i *Item[V]) bool {
 	if i == nil {
 		// If the item is nil make this Set a no-op.
-		return
+		return false
 	}
 
 	m.Lock()
@@ -201,10 +203,10 @@ func (m *lockedMap[V]) Set(i *Item[V]) {
 		// The item existed already. We need to check the conflict key and reject the
 		// update if they do not match. Only after that the expiration map is updated.
 		if i.Conflict != 0 && (i.Conflict != item.conflict) {
-			return
+			return false
 		}
 		if m.shouldUpdate != nil && !m.shouldUpdate(i.Value, item.value) {
-			return
+			return false
 		}
 		m.em.update(i.Key, i.Conflict, item.expiration, i.Expiration)
 	} else {
@@ -219,6 +221,7 @@ func (m *lockedMap[V]) Set(i *Item[V]) {
 		value:      i.Value,
 		expiration: i.Expiration,
 	}
+	return true
 }
 
 func (m *lockedMap[V]) Del(key, conflict uint64) (uint64, V) {
